@@ -562,6 +562,12 @@ type TxSpec struct {
 	SeqDelta   int64 // added to the true sequence (stale/future sequence)
 	Memo       string
 	NoSign     bool
+	// AminoJSON: sign in SIGN_MODE_LEGACY_AMINO_JSON (hardware wallets), where the bytes that are signed come
+	// from each message's GetSignBytes
+	AminoJSON bool
+	// SwapMsgs: after signing, the messages are replaced by these and the signatures kept (a transaction that
+	// was altered on its way)
+	SwapMsgs []sdk.Msg
 }
 
 // Sign builds and signs spec against the account numbers/sequences of the current state.
@@ -603,6 +609,10 @@ func (w *World) Sign(spec TxSpec) ([]byte, error) {
 	if spec.NoSign {
 		return txc.TxEncoder()(b.GetTx())
 	}
+	mode := signing.SignMode_SIGN_MODE_DIRECT
+	if spec.AminoJSON {
+		mode = signing.SignMode_SIGN_MODE_LEGACY_AMINO_JSON
+	}
 	ctx := w.Ctx()
 	type si struct {
 		priv     cryptotypes.PrivKey
@@ -622,7 +632,7 @@ func (w *World) Sign(spec TxSpec) ([]byte, error) {
 		seq = uint64(int64(seq) + spec.SeqDelta)
 		priv := ac.Priv
 		infos = append(infos, si{priv, num, seq})
-		sigs = append(sigs, signing.SignatureV2{PubKey: priv.PubKey(), Data: &signing.SingleSignatureData{SignMode: signing.SignMode_SIGN_MODE_DIRECT}, Sequence: seq})
+		sigs = append(sigs, signing.SignatureV2{PubKey: priv.PubKey(), Data: &signing.SingleSignatureData{SignMode: mode}, Sequence: seq})
 	}
 	if err := b.SetSignatures(sigs...); err != nil {
 		return nil, err
@@ -633,7 +643,7 @@ func (w *World) Sign(spec TxSpec) ([]byte, error) {
 		if spec.BadSig {
 			signKey = MkAcct("wrong-key").Priv
 		}
-		sig, err := clienttx.SignWithPrivKey(signing.SignMode_SIGN_MODE_DIRECT, sd, b, signKey, txc, in.seq)
+		sig, err := clienttx.SignWithPrivKey(mode, sd, b, signKey, txc, in.seq)
 		if err != nil {
 			return nil, err
 		}
@@ -644,6 +654,11 @@ func (w *World) Sign(spec TxSpec) ([]byte, error) {
 	}
 	if err := b.SetSignatures(sigs...); err != nil {
 		return nil, err
+	}
+	if spec.SwapMsgs != nil {
+		if err := b.SetMsgs(spec.SwapMsgs...); err != nil {
+			return nil, err
+		}
 	}
 	return txc.TxEncoder()(b.GetTx())
 }
